@@ -169,6 +169,7 @@ Section ExactMain.
         * destruct Hs as (n & ids & _ & Hs). unfold has in Hs. rewrite Hs. reflexivity.
         * destruct Hs as (n & ps & Hs & _). unfold has in Hs. rewrite Hs. reflexivity.
         * destruct Hs as (kid & vid & Hs & _). unfold has in Hs. rewrite Hs. reflexivity.
+        * destruct Hs as (ts & Hs & _). unfold has in Hs. rewrite Hs. reflexivity.
         * destruct Hs as (i & Hs & _). unfold has in Hs. rewrite Hs. destruct c; reflexivity.
         * destruct Hs as (i & Hs & _). unfold has in Hs. rewrite Hs. destruct c; reflexivity.
     - destruct Hrk as [(r & -> & ->)|(-> & ->)]; cbn [kshape] in Hs.
@@ -302,7 +303,7 @@ Section ExactMain.
              end /\
                   leaf_x re D T ex (Some l) enum None sv ik items mni mxi props req ap None false false d = true).
         { intros t0 Hk0 Hnle d Hd.
-          destruct k as [| | | |mx mn pat|r|raws|deny| |c|c|r|]; try contradiction; cbn [kshape] in Hk0;
+          destruct k as [| | | |mx mn pat|r|raws|deny| | |c|c|r|]; try contradiction; cbn [kshape] in Hk0;
             cbn beta iota in Hsv, Hlen, Henum, Hikk, Hobj.
           - unfold has in Hk0. rewrite Hk0 in Hd. injection Hd as <-. split; [exact I|]. subst tt enum sv.
             cbn [leaf_x]. unfold common, ty_rep. cbn [forallb]. rewrite (Hvt (JBool true) eq_refl). reflexivity.
@@ -363,6 +364,25 @@ Section ExactMain.
               [reflexivity| |reflexivity].
             cbn [frag_kind] in Hf. cbn [OForall] in IHap.
             apply (E_exact _ _ IHap Hf); [destruct nl; exact Hne|exact Hval].
+          - (* KTuple *)
+            destruct Hk0 as (ts & Hk0 & Hall).
+            unfold has in Hk0. rewrite Hk0 in Hd. injection Hd as <-. split; [exact I|].
+            destruct Hinv as (-> & ->). subst enum sv.
+            apply tuple_len_inv in Hlen. destruct Hlen as [-> ->].
+            cbn [frag_kind] in Hf.
+            assert (Hne' : forallb no_nullable_enum items = true) by (destruct nl; exact Hne).
+            assert (Hxl : forall its ts0, Forall E its -> forallb (frag cls keys) its = true ->
+                       forallb no_nullable_enum its = true ->
+                       AllP2 (shape cls D T) its ts0 -> length ts0 = length its /\ ex_list ex its ts0 = true).
+            { induction its as [|it its IHl]; intros [|tq ts0] HC Hfr Hn0 HA; cbn [AllP2] in HA; try contradiction.
+              - split; reflexivity.
+              - destruct HA as [HA1 HA2]. cbn [forallb] in Hfr, Hn0.
+                apply andb_true_iff in Hfr. destruct Hfr as [Hf1 Hf2]. apply andb_true_iff in Hn0. destruct Hn0 as [Hn1 Hn2].
+                destruct (IHl ts0 (Forall_inv_tail HC) Hf2 Hn2 HA2) as [Hl Hc]. split; [cbn [length]; f_equal; exact Hl|].
+                cbn [ex_list]. rewrite (E_exact _ _ (Forall_inv HC) Hf1 Hn1 HA1), Hc. reflexivity. }
+            destruct (Hxl items ts IHitems Hf Hne' Hall) as [Hl Hc].
+            cbn [leaf_x]. unfold common, ty_rep. cbn [forallb is_none deny_of orb andb].
+            rewrite (Hvt (JArr []) eq_refl). unfold arity_of. rewrite N.eqb_refl, Hl, N.eqb_refl, Hc. reflexivity.
           - (* KVec *)
             destruct Hk0 as (i & Hk0 & Hit).
             unfold has in Hk0. rewrite Hk0 in Hd. injection Hd as <-.
